@@ -547,7 +547,13 @@ def _run_guarded(tasks, procs):
                     results[k] = {"verdict": "unknown", "reason": "solver process died", "time_s": 0, "backend": "z3(process died)"}
                 done.append(k)
             elif not pr.is_alive():
-                results[k] = {"verdict": "unknown", "reason": f"solver process exited with code {pr.exitcode}", "time_s": 0, "backend": "z3(process exited)"}
+                if pc.poll(0.2):  # the result may have been written between the two tests above
+                    try:
+                        results[k] = pc.recv()
+                    except EOFError:
+                        results[k] = {"verdict": "unknown", "reason": "solver process died", "time_s": 0, "backend": "z3(process died)"}
+                else:
+                    results[k] = {"verdict": "unknown", "reason": f"solver process exited with code {pr.exitcode}", "time_s": 0, "backend": "z3(process exited)"}
                 done.append(k)
             elif time.time() > deadline:
                 pr.terminate()
